@@ -200,7 +200,8 @@ func GenTxn(r *Rng, id int, m *Model, o TxnOpts) *Txn {
 	if o.Journal {
 		v := IDHash(id, 999, hs)
 		t.Refs = append(t.Refs, Ref{Name: JournalRef, Kind: KVal, Value: v})
-		t.Logs = append(t.Logs, Log{Name: JournalRef, New: v, User: "j", Email: "j@x", Time: 1000 + uint64(id), Msg: msg})
+		// the journal's entries carry a time beyond any expiry limit used by the workloads
+		t.Logs = append(t.Logs, Log{Name: JournalRef, New: v, User: "j", Email: "j@x", Time: 1<<40 + uint64(id), Msg: msg})
 	}
 	for i := 0; i < o.Filler; i++ {
 		nm := fmt.Sprintf("refs/filler/%06d/%04d", id, i)
